@@ -629,22 +629,27 @@ Proof.
   - apply IH; auto; intros; [eapply Hx|eapply Hy]; eauto; right; assumption.
 Qed.
 
-Theorem analysis_exact k c t ct : checkk k c t ct = true ->
-  forall s, reach c t s ->
-  forall running lasti st tr, In (running, lasti, st, tr) (obs c s) ->
-  running = (match k with KSusp => false | KRun => true end) ->
-  trickery c t running lasti st = TOk (expected tr).
+Lemma obs_checked k c t ct : checkk k c t ct = true ->
+  forall s, reach c t s -> forall o, In o (obs c s) ->
+  obs_check k c t (omap (fun _ => tt) o) = true.
 Proof.
-  intros Hc s Hr r l st tr Hin Hsel.
+  intros Hc s Hr o Hin.
   assert (Hp : pc s < length c).
   { destruct (Nat.lt_ge_cases (pc s) (length c)) as [|Hge]; [assumption|exfalso].
     unfold obs, at_ in Hin. rewrite nth_overflow in Hin by exact Hge. destruct Hin. }
   pose proof (check_pc_of _ _ _ _ _ Hc Hp) as Hk. unfold check_pc in Hk.
   rewrite (cert_sound _ _ _ _ Hc _ Hr) in Hk. apply andb_true_iff in Hk as [_ Hk].
   unfold erase in Hk. rewrite obs_commute, forallb_forall in Hk.
-  specialize (Hk _ (in_map (omap (fun _ => tt)) _ _ Hin)). cbn [omap obs_ok obs_sel] in Hk.
-  assert (Hs : negb (match k with KSusp => negb r | KRun => r end) = false) by (subst r; destruct k; reflexivity).
-  rewrite Hs in Hk. cbn [orb] in Hk.
+  exact (Hk _ (in_map (omap (fun _ => tt)) _ _ Hin)).
+Qed.
+
+Lemma obs_ok_exact k c t ct : checkk k c t ct = true ->
+  forall s, reach c t s ->
+  forall r l st tr, In (r, l, st, tr) (obs c s) ->
+  obs_ok c t (omap (fun _ => tt) (r, l, st, tr)) = true ->
+  trickery c t r l st = TOk (expected tr).
+Proof.
+  intros Hc s Hr r l st tr Hin Hk. cbn [omap obs_ok] in Hk.
   rewrite trickery_commute, expected_commute in Hk.
   destruct (trickery c t r l st) as [lc| |] eqn:Et; cbn [tres_map tres_ok] in Hk; try discriminate.
   apply list_eqb_eq in Hk; [|apply ctxv_eqb_eq]. f_equal.
@@ -653,6 +658,18 @@ Proof.
   apply (cmap_inj_under (fun x => In x (ids s)) HI); [exact Hk| |].
   - intros x i Hx Hi. unfold ids. apply in_or_app. left. apply Hst. eapply trickery_src; eauto.
   - intros y j Hy Hj. unfold ids. apply in_or_app. right. apply Htr. eapply expected_src; eauto.
+Qed.
+
+Theorem analysis_exact k c t ct : checkk k c t ct = true ->
+  forall s, reach c t s ->
+  forall running lasti st tr, In (running, lasti, st, tr) (obs c s) ->
+  (k = KSusp /\ running = false) \/ (k = KRun /\ running = true) ->
+  trickery c t running lasti st = TOk (expected tr).
+Proof.
+  intros Hc s Hr r l st tr Hin Hsel.
+  eapply obs_ok_exact; eauto.
+  pose proof (obs_checked _ _ _ _ Hc _ Hr _ Hin) as Hk. cbn [omap obs_check] in Hk.
+  destruct Hsel as [[-> ->]|[-> ->]]; exact Hk.
 Qed.
 Print Assumptions analysis_exact.
 
@@ -718,7 +735,7 @@ Theorem trim_safe c t ct : checkk KRun c t ct = true ->
   In (VX (c_site x) i) (keep_bottom (trim_depth t lasti) st).
 Proof.
   intros Hc s Hr l st tr Hin x i Hx Hi.
-  pose proof (analysis_exact _ _ _ _ Hc _ Hr _ _ _ _ Hin eq_refl) as Ha.
+  pose proof (analysis_exact _ _ _ _ Hc _ Hr _ _ _ _ Hin (or_intror (conj eq_refl eq_refl))) as Ha.
   assert (Hfrom : c_from x = c_site x).
   { unfold expected in Hx. apply in_flat_map in Hx as (e & _ & Hx).
     destruct (t_phase e); cbn in Hx; try contradiction; destruct Hx as [<-|[]]; reflexivity. }
